@@ -157,6 +157,32 @@ def run(ctx):
                 ctx.violation("the binding %s is accepted with NO update function (its value is written into the .ui once) although the value of its source differs between states: %s"
                               % (src, defined[:3]), {"qml": cxx.document([("tgt", sgen.PROP[t], src)]), "worlds": [exe.world_line(w) for w in ws], "oracle_output": vals,
                                                      "impl_output": r.get("header"), "theorem_or_correspondence": "C02_stays_current / S (constant classification)"})
+    # ---- targets of every kind of object (real Qt classes): an accepted dynamic binding has its update function (the setter call) and the connection from the notify
+    # signal of what it reads -- a binding on a layout or an action stays current like one on a widget
+    kinds = [("QVBoxLayout { id: t; spacing: spin.value; QLabel { } }", "->t->setSpacing(", "QSpinBox::valueChanged"), ("QGridLayout { id: t; horizontalSpacing: spin.value; QLabel { } }", "->t->setHorizontalSpacing(", "QSpinBox::valueChanged"),
+             ("QFormLayout { id: t; verticalSpacing: spin.value + 1 }", "->t->setVerticalSpacing(", "QSpinBox::valueChanged"), ("QHBoxLayout { id: t; contentsMargins.left: spin.value }", "->t->setContentsMargins(", "QSpinBox::valueChanged"),
+             ("QLabel { id: t; text: edit.text }", "->t->setText(", "QLineEdit::textChanged"), ("QAction { id: t; enabled: chk.checked }", "->t->setEnabled(", "QAbstractButton::toggled"),
+             ("QAction { id: t; text: edit.text }", "->t->setText(", "QLineEdit::textChanged"), ("QSlider { id: t; maximum: spin.value }", "->t->setMaximum(", "QSpinBox::valueChanged"),
+             ("QMenu { id: t; title: edit.text }", "->t->setTitle(", "QLineEdit::textChanged"), ("QGroupBox { id: t; title: edit.text; QVBoxLayout { spacing: spin.value } }", "->setSpacing(", "QSpinBox::valueChanged"),
+             ("QTabWidget { id: t; QWidget { id: page; enabled: chk.checked } }", "->page->setEnabled(", "QAbstractButton::toggled"), ("QLabel { id: t; font.pointSize: spin.value }", "->t->setFont(", "QSpinBox::valueChanged")]
+    saved = os.environ.get("VERIF_EXTRA_METATYPES", "")
+    os.environ["VERIF_EXTRA_METATYPES"] = ""
+    kdocs = ["import qmluic.QtWidgets\nQWidget {\n  QSpinBox { id: spin }\n  QLineEdit { id: edit }\n  QCheckBox { id: chk }\n  %s\n}\n" % k for k, _, _ in kinds]
+    kres = qml.run_docs(vh, kdocs)
+    os.environ["VERIF_EXTRA_METATYPES"] = saved
+    for (k, setter, signal), d, r in zip(kinds, kdocs, kres):
+        ctx.count(("target-kind", k), True)
+        ctx.dist("binding-on-real-qt-object")
+        if not isinstance(r, dict) or "diags" not in r:
+            ctx.violation("no result for a dynamic binding on %s" % k.split(" ")[0], {"qml": d, "impl_output": str(r)[:300]})
+            continue
+        if r["has_error"] or any(x["kind"] == "error" for x in r["diags"]):
+            continue
+        h = r.get("header") or ""
+        if setter not in h or signal not in h:
+            ctx.violation("the dynamic binding `%s` is accepted, but the support header has %s: the target never follows what it reads"
+                          % (k, "no call of the setter (%s)" % setter.strip("->(") if setter not in h else "no connection from %s" % signal),
+                          {"qml": d, "impl_output": h, "theorem_or_correspondence": "C02_stays_current / S (targets of every kind)"})
     # ---- unobservable reads are rejected
     unobs = [("i", "a.quiet", True), ("i", "a.next != null ? a.next.quiet : 0", True), ("i", "{ let p = a.next; if (p != null) { return p.quiet } return 0 }", True),
              ("i", "a.quietNext != null ? a.quietNext.i : 0", True), ("b", "a.quietNext == b", True), ("i", "{ let p = a.quietNext; return p != null ? p.i : 1 }", True),
